@@ -1,11 +1,13 @@
 /-
   Property C18 — v1 library: the RFC 6902 / RFC 7386 renderings are faithful.
-  Statement file. SECTION 1 (this file, so far): the JSON MERGE PATCH half (`Diff.RenderMerge`,
-  `ReadMergeString`, `Patch` of the v1 library `lib/` against RFC 7386); proofs in
-  JdProofs/V1MergeRender.lean (namespace `Jd.V1M`).
-  THE JSON PATCH HALF (RFC 6902: `RenderPatch` / `ReadPatchString` of v1, pointer writing and reading,
-  the deferred string-or-integer decision) HAS NO THEOREM YET IN THIS FILE: a proof is in progress and
-  will be added as a second section. Until then that half rests on correspondence and oracle only.
+  Statement file, two sections.
+  SECTION 1: the JSON MERGE PATCH half (`Diff.RenderMerge`, `ReadMergeString`, `Patch` of the v1
+  library `lib/` against RFC 7386); proofs in JdProofs/V1MergeRender.lean (namespace `Jd.V1M`).
+  SECTION 2: the JSON PATCH half (RFC 6902: `Diff.RenderPatch` / `ReadPatchString` of v1, pointer
+  writing and reading, the deferred string-or-integer decision), LIST mode, full nesting; proofs in
+  JdProofs/V1PatchRender.lean (namespace `Jd.V1R`), on top of the C17 list theorem
+  (JdProofs/V1ListDiffPatch.lean, namespace `Jd.V1P`). Both clauses of the property are theorems for
+  both halves at the level of the patch DOCUMENT (list of operations / merge patch document).
 
   Model side (`Jd.V1`, JdModel/V1/*): `V1.diffM m a b` is `a.Diff(b, metadata...)` of the v1 library;
   `V1.liftDiff` lifts its hunks to the path representation the renderers work on (as in the model);
@@ -16,6 +18,7 @@
   transcribed; `specEq` = `equivB []` (JdSpec/CanonEq.lean): structural equality, ignoring only the
   Go dynamic type of array nodes.
 
+  SECTION 1 — MERGE HALF
   WHAT IS STATED (merge half; full nesting)
    (1) evaluation by the RFC: `v1_rendered_merge_patch_yields_target` (and `…_object`): for documents
        as read from JSON text, `b` null-free, that the v1 `Equals` tells apart, the v1 merge diff
@@ -39,7 +42,7 @@
        `null` at the root), with the three classes inhabited (`v1_witness_…`: KF-C12-emptyobj,
        KF-C12-rootnull).
 
-  DOMAIN / HYPOTHESES and why
+  DOMAIN / HYPOTHESES (merge half) and why
     `V1M.MergeMode m`: MERGE metadata present, no SET, no MULTISET, precision 0 or absent (`setkeys`
        alone is allowed: it leaves arrays lists in v1); `V1M.MergeMode.single : MergeMode [.merge]`;
     `a.wf`, `a.rawDoc`: unique sorted keys, plain arrays (as read from text); `a` MAY contain nulls
@@ -52,14 +55,71 @@
     `FloatLaws`: reflexivity of `|x − y| ≤ 0` on the numbers that are copied.
     No hash hypothesis (the list reading never hashes), no index laws (merge hunks carry no indices).
 
+  SECTION 2 — JSON PATCH HALF
+  Model side: `V1.renderPatchOps (V1.liftDiff d)` is `Diff.RenderPatch()` before JSON encoding: the
+  list of operations `{op, path, value}` (`renderPatchHunk`, `writePointer`); `V1.renderPatchM nc` is
+  the text-level function; `V1.readPatchLoop fuel ops []` is the element loop of `ReadPatchString`
+  after JSON decoding (`readPatchHunk`, `readPointer`), `V1.readPatchDoc doc` the reader on a decoded
+  patch document; `V1.patchP a d'` is `a.Patch(d')` for a diff whose paths may hold
+  `jsonStringOrInteger` tokens (`PElem.sori`: the DEFERRED decision — the token is read as a key by
+  `jsonObject.patch` and as an index by `jsonList.patch`); `V1.patchM a d` is `a.Patch(d)` for a diff
+  produced by `V1.diffM`. Spec side: `eval c ops` (JdSpec/Rfc6902.lean), the RFC 6902 evaluator
+  written from the RFC, independent of jd.
+
+  WHAT IS STATED (patch half)
+   (4) evaluation by the RFC: `v1_rendered_patch_yields_target` (and `…_noDash`): `RenderPatch` of
+       `a.Diff(b)` SUCCEEDS, its operations are `test` / `remove` / `add` only, and RFC 6902 applied to
+       `a` yields a document structurally equal to `b` (`specEq` both ways, and up to `untag`). v1
+       emits the hunks of a list so that indices stay valid; the evaluator is run on the operations
+       in the emitted order. `v1_rendered_patch_text_does_not_fail`: the text-level `RenderPatch`
+       returns no error (nothing is said about the encoder).
+   (5) read-back: `v1_rendered_patch_reads_back` (and `…_noDash`): the element loop of
+       `ReadPatchString` accepts the rendered operations (with the fuel `readPatchDoc` gives it:
+       `v1_read_patch_document_runs_the_loop`), and `a.Patch` of the diff read back — in which every
+       hunk with an old and a new value has become two elements and every integer-looking pointer
+       token a `jsonStringOrInteger` — succeeds with EXACTLY the result of patching with the original
+       diff, which `V1.equals m` and `specEq` identify with `b`.
+   (6) what v1 can render: `v1_render_succeeds_iff_no_dash_key`: on the domain `RenderPatch` succeeds
+       IF AND ONLY IF no path of the diff holds the object key "-" — the only key v1 cannot express
+       (`v1_render_refuses_dash_key`: any diff with such a hunk is not rendered; concrete:
+       `v1_witness_dash_key_refused`, `{"-":1}` → `{}`, an error, not a mistranslation).
+   (7) the deferred decision: `v1_read_pointer_tokens` (what `readPointer` makes of a pointer text:
+       token by token `V1R.rtok`), `v1_integer_looking_token_is_deferred` (a token `strconv.Atoi`
+       accepts becomes a `jsonStringOrInteger`), `v1_key_token_is_read_back_as_the_key` (an object
+       reads it as the key, integer-looking or not). INTEGER-LOOKING KEYS ("0", "+5", "-1", "007" …)
+       are NOT excluded from (4) and (5): the path of a diff hunk follows the structure of the
+       document it was computed from, so an index token only ever meets a list and a key token an
+       object. No counterexample exists in the domain; both clauses are instantiated on documents
+       with such keys (non-vacuity examples).
+
+  DOMAIN / HYPOTHESES (patch half) and why — the domain of the C17 list theorem
+    `V1P.ListMode m`: no SET / MULTISET / MERGE metadata, precision 0 or absent (`setkeys` alone is
+       allowed); `V1P.ListMode.nil : ListMode []`;
+    `a`, `b`: `listDoc`, `wf`, `finiteNums`, `V1P.vfree` (no void marker inside the document);
+       `finiteNums` is also what makes the `test` of the rendered patch, and the reader's comparison
+       of a removed value with itself, succeed;
+    `FloatLaws`; `V1P.IdxLaws N` with `V1P.lenLe N a` (every array of `a` has at most `N` elements):
+       list indices travel through float64 and `Float` is opaque to the kernel (IEEE-754 makes
+       `IdxLaws N` true for `N ≤ 2^53`); for the read-back additionally `N ≤ 2^63` (the index is
+       printed in decimal and re-read by `strconv.Atoi`);
+    KEYS: `∀ h ∈ a.Diff(b), V1R.noDashP h.path` (no diff path holds the key "-"), NECESSARY AND
+       SUFFICIENT by (6); it follows from the decidable input condition `V1R.noDash a ∧ V1R.noDash b`
+       (the `…_noDash` versions). Keys inside removed / added VALUES are unrestricted.
+    No hash hypothesis (as in the C17 list theorem: the v1 list reading never hashes).
+
   NOT PROVED / OUTSIDE
-    * the JSON Patch half (see the top);
-    * the TEXT level: JSON encoding of the patch document by `RenderMerge` and its parsing by
-      `ReadMergeString` (`V1.renderMergeM` / `V1.readMergeM` beyond `v1_rendered_merge_text_is_encoding`):
-      (2) starts from the document `p`, not from its text;
-    * SET / MULTISET metadata together with MERGE in v1.
+    * the TEXT level, both halves: JSON encoding of the patch document by `RenderMerge` /
+      `RenderPatch` and its parsing by `ReadMergeString` / `ReadPatchString` (`V1.renderMergeM` /
+      `V1.readMergeM` beyond `v1_rendered_merge_text_is_encoding`; `V1.renderPatchM` beyond
+      `v1_rendered_patch_text_does_not_fail`; `patchOpsOfJson`, the decoding of the operations, is a
+      hypothesis of `v1_read_patch_document_runs_the_loop`): (2) and (5) start from the patch
+      document / the list of operations, not from its text;
+    * SET / MULTISET metadata together with MERGE in v1 (merge half);
+    * SET / MULTISET / MERGE metadata for `RenderPatch` (patch half: list mode only), and documents
+      outside the domain above.
 -/
 import JdProofs.V1MergeRender
+import JdProofs.V1PatchRender
 
 namespace Jd.Props.C18
 open Jd Jd.Spec
@@ -233,5 +293,191 @@ example : V1.equals [.merge] (.arr .raw []) (.obj []) = false ∧
     V1.patchM (.arr .raw []) (V1.readMergeDoc (.obj [])) = .ok (.arr .raw []) :=
   v1_readback_of_empty_object_over_non_object_fails V1M.MergeMode.single _ (by decide) (by decide)
     (by decide)
+
+/-! ## Section 2 — JSON Patch (RFC 6902), list mode -/
+
+/-! ### (4) the rendered JSON Patch, evaluated by RFC 6902 on `a`, yields `b` -/
+
+/-- **C18, patch half, evaluation by the RFC**: for list-mode metadata and documents in the domain of
+    the C17 list theorem such that no path of the diff holds the object key "-": `Diff.RenderPatch` of
+    `a.Diff(b)` succeeds, its operations are `test`, `remove`, `add` only, and the independent
+    RFC 6902 evaluator applied to `a` yields a document structurally equal to `b` (array tags
+    ignored). Integer-looking keys and keys needing `~0` / `~1` escaping are covered. -/
+theorem v1_rendered_patch_yields_target (L : FloatLaws) {N : Nat} (I : V1P.IdxLaws N)
+    (m : V1.Metas) (hm : V1P.ListMode m) (a b : Json)
+    (ha1 : a.listDoc = true) (ha2 : a.wf = true) (ha3 : a.finiteNums = true)
+    (ha4 : V1P.vfree a = true) (ha5 : V1P.lenLe N a = true)
+    (hb1 : b.listDoc = true) (hb2 : b.wf = true) (hb3 : b.finiteNums = true)
+    (hb4 : V1P.vfree b = true)
+    (hdash : ∀ h ∈ V1.diffM m a b, V1R.noDashP h.path = true) :
+    ∃ ops r, V1.renderPatchOps (V1.liftDiff (V1.diffM m a b)) = .ok ops ∧
+      (∀ o ∈ ops, o.wfOp) ∧
+      eval a (ops.map PatchOp.toSpec) = some r ∧
+      specEq r b = true ∧ specEq b r = true ∧ specEq (untag r) (untag b) = true :=
+  V1R.v1_render_patch_rfc L I m hm a b ha1 ha2 ha3 ha4 ha5 hb1 hb2 hb3 hb4 hdash
+
+/-- the same with the decidable hypothesis on the inputs: neither document has the object key "-" -/
+theorem v1_rendered_patch_yields_target_noDash (L : FloatLaws) {N : Nat} (I : V1P.IdxLaws N)
+    (m : V1.Metas) (hm : V1P.ListMode m) (a b : Json)
+    (ha1 : a.listDoc = true) (ha2 : a.wf = true) (ha3 : a.finiteNums = true)
+    (ha4 : V1P.vfree a = true) (ha5 : V1P.lenLe N a = true)
+    (hb1 : b.listDoc = true) (hb2 : b.wf = true) (hb3 : b.finiteNums = true)
+    (hb4 : V1P.vfree b = true)
+    (hda : V1R.noDash a = true) (hdb : V1R.noDash b = true) :
+    ∃ ops r, V1.renderPatchOps (V1.liftDiff (V1.diffM m a b)) = .ok ops ∧
+      (∀ o ∈ ops, o.wfOp) ∧
+      eval a (ops.map PatchOp.toSpec) = some r ∧
+      specEq r b = true ∧ specEq b r = true ∧ specEq (untag r) (untag b) = true :=
+  V1R.v1_render_patch_rfc_noDash L I m hm a b ha1 ha2 ha3 ha4 ha5 hb1 hb2 hb3 hb4 hda hdb
+
+/-- the text level: `Diff.RenderPatch()` does not fail on the domain (its result is `none` only when
+    the number codec cannot print a number); nothing is said about the encoder itself -/
+theorem v1_rendered_patch_text_does_not_fail (L : FloatLaws) {N : Nat} (I : V1P.IdxLaws N)
+    (nc : NumCodec) (m : V1.Metas) (hm : V1P.ListMode m) (a b : Json)
+    (ha1 : a.listDoc = true) (ha2 : a.wf = true) (ha3 : a.finiteNums = true)
+    (ha4 : V1P.vfree a = true) (ha5 : V1P.lenLe N a = true)
+    (hb1 : b.listDoc = true) (hb2 : b.wf = true) (hb3 : b.finiteNums = true)
+    (hb4 : V1P.vfree b = true)
+    (hdash : ∀ h ∈ V1.diffM m a b, V1R.noDashP h.path = true) :
+    ∃ t, V1.renderPatchM nc (V1.liftDiff (V1.diffM m a b)) = .ok t :=
+  V1R.v1_renderPatchM_ok L I nc m hm a b ha1 ha2 ha3 ha4 ha5 hb1 hb2 hb3 hb4 hdash
+
+/-! ### (5) reading the rendered patch back with the v1 reader and patching `a` yields `b` -/
+
+/-- **C18, patch half, read-back**: under the same hypotheses (and `N ≤ 2^63`: indices are re-read
+    with `strconv.Atoi`), the element loop of `ReadPatchString` accepts the rendered operations, and
+    `a.Patch` of the diff read back — whose paths hold `jsonStringOrInteger` tokens for every
+    integer-looking pointer token — succeeds with EXACTLY the result `r` of patching with the
+    original diff, which the v1 `Equals` (and `specEq`) identifies with `b` -/
+theorem v1_rendered_patch_reads_back (L : FloatLaws) {N : Nat} (I : V1P.IdxLaws N)
+    (hN : N ≤ 2 ^ 63) (m : V1.Metas) (hm : V1P.ListMode m) (a b : Json)
+    (ha1 : a.listDoc = true) (ha2 : a.wf = true) (ha3 : a.finiteNums = true)
+    (ha4 : V1P.vfree a = true) (ha5 : V1P.lenLe N a = true)
+    (hb1 : b.listDoc = true) (hb2 : b.wf = true) (hb3 : b.finiteNums = true)
+    (hb4 : V1P.vfree b = true)
+    (hdash : ∀ h ∈ V1.diffM m a b, V1R.noDashP h.path = true) :
+    ∃ ops d' r, V1.renderPatchOps (V1.liftDiff (V1.diffM m a b)) = .ok ops ∧
+      V1.readPatchLoop (ops.length + 1) ops [] = .ok d' ∧
+      V1.patchP a d' = .ok r ∧ V1.patchM a (V1.diffM m a b) = .ok r ∧
+      V1.equals m r b = true ∧ specEq r b = true ∧ specEq b r = true :=
+  V1R.v1_render_read_patch L I hN m hm a b ha1 ha2 ha3 ha4 ha5 hb1 hb2 hb3 hb4 hdash
+
+/-- the same with the decidable hypothesis on the inputs -/
+theorem v1_rendered_patch_reads_back_noDash (L : FloatLaws) {N : Nat} (I : V1P.IdxLaws N)
+    (hN : N ≤ 2 ^ 63) (m : V1.Metas) (hm : V1P.ListMode m) (a b : Json)
+    (ha1 : a.listDoc = true) (ha2 : a.wf = true) (ha3 : a.finiteNums = true)
+    (ha4 : V1P.vfree a = true) (ha5 : V1P.lenLe N a = true)
+    (hb1 : b.listDoc = true) (hb2 : b.wf = true) (hb3 : b.finiteNums = true)
+    (hb4 : V1P.vfree b = true)
+    (hda : V1R.noDash a = true) (hdb : V1R.noDash b = true) :
+    ∃ ops d' r, V1.renderPatchOps (V1.liftDiff (V1.diffM m a b)) = .ok ops ∧
+      V1.readPatchLoop (ops.length + 1) ops [] = .ok d' ∧
+      V1.patchP a d' = .ok r ∧ V1.patchM a (V1.diffM m a b) = .ok r ∧
+      V1.equals m r b = true ∧ specEq r b = true ∧ specEq b r = true :=
+  V1R.v1_render_read_patch_noDash L I hN m hm a b ha1 ha2 ha3 ha4 ha5 hb1 hb2 hb3 hb4 hda hdb
+
+/-- `ReadPatchString` on a decoded patch document whose operations are `ops` IS the element loop with
+    the fuel `ops.length + 1` used in (5) (the decoding `patchOpsOfJson` of the operations from the
+    JSON document is a hypothesis: text layer) -/
+theorem v1_read_patch_document_runs_the_loop {doc : Json} {ops : List PatchOp} {d' : V1.PDiff}
+    (h1 : patchOpsOfJson doc = .ok ops)
+    (h2 : V1.readPatchLoop (ops.length + 1) ops [] = .ok d') : V1.readPatchDoc doc = .ok d' :=
+  V1R.readPatchDoc_of_loop h1 h2
+
+/-! ### (6) which diffs v1 can render: the key "-" -/
+
+/-- **sharp form of the key hypothesis**: on the domain, `Diff.RenderPatch` succeeds exactly when no
+    path of the diff holds the object key "-" (every other key — integer-looking, empty, with `/` or
+    `~` — is expressible) -/
+theorem v1_render_succeeds_iff_no_dash_key (L : FloatLaws) {N : Nat} (I : V1P.IdxLaws N)
+    (m : V1.Metas) (hm : V1P.ListMode m) (a b : Json)
+    (ha1 : a.listDoc = true) (ha2 : a.wf = true) (ha3 : a.finiteNums = true)
+    (ha4 : V1P.vfree a = true) (ha5 : V1P.lenLe N a = true)
+    (hb1 : b.listDoc = true) (hb2 : b.wf = true) (hb3 : b.finiteNums = true)
+    (hb4 : V1P.vfree b = true) :
+    (∃ ops, V1.renderPatchOps (V1.liftDiff (V1.diffM m a b)) = .ok ops) ↔
+      ∀ h ∈ V1.diffM m a b, V1R.noDashP h.path = true :=
+  V1R.v1_render_ok_iff L I m hm a b ha1 ha2 ha3 ha4 ha5 hb1 hb2 hb3 hb4
+
+/-- the input condition implies the condition on the paths of the diff -/
+theorem v1_no_dash_key_in_inputs_implies_none_in_diff (m : V1.Metas) (hm : V1P.ListMode m)
+    (a b : Json) (ha1 : a.listDoc = true) (hb1 : b.listDoc = true)
+    (hda : V1R.noDash a = true) (hdb : V1R.noDash b = true) :
+    ∀ h ∈ V1.diffM m a b, V1R.noDashP h.path = true :=
+  V1R.noDash_diffM m hm a b ha1 hb1 hda hdb
+
+/-- REFUSAL, any diff: a hunk whose path holds the key "-" makes `RenderPatch` not produce a patch -/
+theorem v1_render_refuses_dash_key (d1 d2 : V1.VDiff) (h : V1.Hunk) (pre post : List Json)
+    (hp : h.path = pre ++ .str "-" :: post) :
+    ∀ ops, V1.renderPatchOps (V1.liftDiff (d1 ++ h :: d2)) ≠ .ok ops :=
+  V1R.render_refuses_dash d1 d2 h pre post hp
+
+/-- concrete (`pointer.go`: "JSON Pointer does not support object key '-'"): `{"-":1}` → `{}` has a
+    perfectly good native diff, which `RenderPatch` refuses with an error -/
+theorem v1_witness_dash_key_refused :
+    V1.renderPatchOps
+      (V1.liftDiff (V1.diffM [] (.obj [("-", V1R.Example.one)]) (.obj []))) = .err :=
+  V1R.Example.dash_key_refused
+
+/-! ### (7) the deferred string-or-integer decision -/
+
+/-- what `readPointer` makes of the text `/esc(t₁)/esc(t₂)…` (`V1R.ptrText`): token by token
+    `V1R.rtok` — a `jsonStringOrInteger` for a token `strconv.Atoi` accepts, the index −1 for `-`, a
+    string otherwise -/
+theorem v1_read_pointer_tokens {s : String} {tk : List String}
+    (h : s.toList = V1R.ptrText tk) : V1.readPointer s = .ok (tk.map V1R.rtok) :=
+  V1R.readPointer_of_toList h
+
+/-- an integer-looking token is NOT decided at read time: it becomes a `jsonStringOrInteger` -/
+theorem v1_integer_looking_token_is_deferred {t : String} (h : (atoi? t).isSome = true) :
+    V1R.rtok t = .sori t := by
+  unfold V1R.rtok; rw [if_pos h]
+
+/-- … and an object reads it (like every key token other than "-") as the KEY: nothing is lost -/
+theorem v1_key_token_is_read_back_as_the_key {k : String} (hk : k ≠ "-") :
+    V1.asKey (V1R.rtok k) = some k :=
+  (V1R.rtok_key hk).2
+
+/-! Non-vacuity (documents of JdProofs/V1PatchRender.lean, `V1R.Example`):
+    `exA = {"0":[1,2],"1":1,"a/b~c":{"7":1},"k":2}` and
+    `exB = {"0":[2],"2":1,"a/b~c":{"+5":1,"7":2},"k":[]}`: integer-looking keys "0", "1", "2", "7", "+5",
+    a key needing both escapes, a list below an integer-looking key. Every hypothesis of (4) and (5)
+    holds in both directions with `N = 8`; the rendered pointers are `/0/1`, `/0/0`, `/1`,
+    `/a~1b~0c/7`, `/a~1b~0c/+5`, `/k`, `/2`. -/
+
+example : V1R.Example.exA.listDoc = true ∧ V1R.Example.exA.wf = true ∧
+    V1R.Example.exA.finiteNums = true ∧ V1P.vfree V1R.Example.exA = true ∧
+    V1P.lenLe 8 V1R.Example.exA = true ∧ V1R.noDash V1R.Example.exA = true ∧
+    V1R.Example.exB.listDoc = true ∧ V1R.Example.exB.wf = true ∧
+    V1R.Example.exB.finiteNums = true ∧ V1P.vfree V1R.Example.exB = true ∧
+    V1P.lenLe 8 V1R.Example.exB = true ∧ V1R.noDash V1R.Example.exB = true := V1R.Example.hyps
+
+example (L : FloatLaws) (I : V1P.IdxLaws 8) :
+    ∃ ops r, V1.renderPatchOps (V1.liftDiff (V1.diffM [] V1R.Example.exA V1R.Example.exB)) = .ok ops ∧
+      eval V1R.Example.exA (ops.map PatchOp.toSpec) = some r ∧
+      specEq r V1R.Example.exB = true := by
+  obtain ⟨h1, h2, h3, h4, h5, h6, h7, h8, h9, h10, _, h12⟩ := V1R.Example.hyps
+  obtain ⟨ops, r, hr, _, he, hs, _⟩ :=
+    v1_rendered_patch_yields_target_noDash L I [] V1P.ListMode.nil _ _ h1 h2 h3 h4 h5 h7 h8 h9 h10
+      h6 h12
+  exact ⟨ops, r, hr, he, hs⟩
+
+/-- the other direction, with `setkeys` metadata (allowed in list mode) -/
+example (L : FloatLaws) (I : V1P.IdxLaws 8) :
+    ∃ ops d' r,
+      V1.renderPatchOps (V1.liftDiff (V1.diffM [.setkeys ["a"]] V1R.Example.exB V1R.Example.exA))
+        = .ok ops ∧
+      V1.readPatchLoop (ops.length + 1) ops [] = .ok d' ∧ V1.patchP V1R.Example.exB d' = .ok r ∧
+      V1.equals [.setkeys ["a"]] r V1R.Example.exA = true := by
+  obtain ⟨h1, h2, h3, h4, _, h6, h7, h8, h9, h10, h11, h12⟩ := V1R.Example.hyps
+  obtain ⟨ops, d', r, hr, hl, hp, _, he, _⟩ :=
+    v1_rendered_patch_reads_back_noDash L I (by decide) _ (V1P.ListMode.setkeys ["a"]) _ _ h7 h8 h9
+      h10 h11 h1 h2 h3 h4 h12 h6
+  exact ⟨ops, d', r, hr, hl, hp, he⟩
+
+example : (atoi? "+5").isSome = true ∧ V1R.rtok "0" = .sori "0" ∧
+    V1.asKey (V1R.rtok "0") = some "0" :=
+  ⟨by decide, v1_integer_looking_token_is_deferred (by decide),
+    v1_key_token_is_read_back_as_the_key (by decide)⟩
 
 end Jd.Props.C18
